@@ -17,6 +17,7 @@ def run_property(pid, root, tier='quick', seed=0, quiet=False, write_evidence=Tr
         from .core import alpha
         renamed = alpha.normalise(prog)
         rep.stat('alpha_normalised_functions', len(renamed))
+        rep.restructured = dict(getattr(prog, 'restructured', {}) or {})
         if renamed:
             rep.info('locals renamed to their reference names before analysis (behaviour-preserving): %s' % (
                 '; '.join('%s %s' % (k.split('::')[1], v) for k, v in sorted(renamed.items()))[:600]))
